@@ -293,7 +293,7 @@ func TestVerifC07(t *testing.T) {
 		b, err := os.ReadFile(filepath.Join(out, "c07_current.json"))
 		if err != nil || json.Unmarshal(b, &cur) != nil {
 			cls, what, _ := c07ClassifyFatal(stderr)
-			fails.Write(verifh.Failure{Class: "fatal:unattributed", What: "search child died before its first case: " + cls + " " + what, Got: c07Head(stderr)})
+			fails.Write(verifh.Failure{Class: c07UnattributedClass(cls), What: "search child died before its first case: " + cls + " " + what, Got: c07Head(stderr)})
 
 			return
 		}
@@ -320,7 +320,7 @@ func TestVerifC07(t *testing.T) {
 
 		if !confirmed {
 			cls, what, _ := c07ClassifyFatal(stderr)
-			fails.Write(verifh.Failure{Class: "fatal:unattributed", What: "search child died (" + cls + " " + what + ") and no single candidate reproduces it alone",
+			fails.Write(verifh.Failure{Class: c07UnattributedClass(cls), What: "search child died (" + cls + " " + what + ") and no single candidate reproduces it alone",
 				Input: c07Head(verifh.UnHex(cur.Hex)), Got: c07Head(stderr)})
 		}
 
@@ -353,4 +353,16 @@ func c07Merge(out string, serial int, stats *verifh.Stats, fails *verifh.Writer)
 			}
 		}
 	}
+}
+
+// c07UnattributedClass is the class of a child death that no single candidate reproduces alone: the class is
+// decided by the call site of the fatal error (the same id a confirmed input of that site gets), so that a listed
+// finding of that site is recognised whichever program of the batch set it off; only a death whose stderr names
+// no interpreter frame stays "fatal:unattributed".
+func c07UnattributedClass(cls string) string {
+	if strings.HasPrefix(cls, "fatal:") && strings.Count(cls, ":") >= 2 && !strings.Contains(cls, "unattributed") && !strings.Contains(cls, ":unknown:") {
+		return cls
+	}
+
+	return "fatal:unattributed"
 }
